@@ -48,7 +48,7 @@ func boundsOf(tier string) bounds {
 	if tier == "thorough" {
 		return bounds{enumLen: 7, enumBatch: 8000, legal: 200000, legalBatch: 400, bigs: 24, mut: 200000, mutBatch: 2000, drvReplies: 20000, drvBig: 60}
 	}
-	return bounds{enumLen: 6, enumBatch: 4000, legal: 4000, legalBatch: 100, bigs: 3, mut: 3000, mutBatch: 250, drvReplies: 400, drvBig: 2}
+	return bounds{enumLen: 6, enumBatch: 4000, legal: 8000, legalBatch: 100, bigs: 3, mut: 6000, mutBatch: 250, drvReplies: 1000, drvBig: 4}
 }
 
 // fixed witnesses: the inputs named in KNOWN_FINDINGS (repaired by 2ef9ad1) and a few boundary ones.
@@ -153,7 +153,8 @@ func init() {
 			"encoded by the strict ncwire codec under PRNG chunk partitions (1 chunk … all chunks of size 1; edges forced onto '#', digits, LF, into runes, into message-id=\"…\", into rpc-error markers); " +
 			"(3) mutated frames (truncation at every byte, size ±1/huge/negative/non-numeric/11 digits/zero, missing/doubled '#', missing LF, missing end marker, garbage after it). " +
 			"Driver level: real netconf.Driver over devsim.Conn + ncsim server, 1.0 and 1.1, Get/RPC/GetConfig, all segmentation policies plus forced read boundaries inside chunk headers, " +
-			"end markers and delimiters; no read carries bytes of two server messages. " +
+			"end markers and delimiters and between ]]>]]> and the LF that follows it; no read carries bytes of two server messages. Dedicated sub-families with placed read boundaries and controls: " +
+			"'hash' (1.1 data lines / chunks starting with or equal to '##') and 'decl' (1.0, LF after the delimiter in a read of its own, next reply with declaration); fixed witness inputs. " +
 			"Non-trivial = (enum/mutation batch) the reference accepted at least one and rejected at least one input; (legal batch) at least one multi-chunk frame; " +
 			"(driver session) a read boundary strictly inside a chunk header, the end-of-chunks marker or the 1.0 delimiter. Distinct = distinct descriptor hash.",
 		Assumptions: []string{
@@ -162,7 +163,9 @@ func init() {
 			"1.0 payloads never contain ]]>]]> and payload+delimiter contains the delimiter only at the end; payloads never contain </rpc>, message-id= (other than the reply's own attribute) or </subscription-id>",
 			"driver level, ordinary families: the framed 1.1 reply contains LF## only as the end-of-chunks marker (checked by brute force on the wire bytes; violating inputs are generated only in the dedicated 'hash' family)",
 			"driver level: a read never carries bytes of two server messages (devsim marks); the LF some servers send after ]]>]]> belongs to the message it follows",
-			"tolerant reference (trusted base, ref.go ~70 lines): leading whitespace skipped; zero or more LFs before each '#'; size = 1-10 decimal digits, > 0, leading zeros tolerated; all chunk data present; '##' required, bytes after it ignored; zero chunks tolerated",
+			"tolerant reference (trusted base, ref.go ~70 lines) defines 'malformed' for arbitrary bytes: leading whitespace skipped; ZERO or more LFs before each '#' (loosened from RFC 6242's exactly one: " +
+				"`#1\\nx##` and `#1\\nx#1\\ny\\n##` are accepted, the data returned is exactly the chunk data); size = 1-10 decimal digits, > 0, no sign, leading zeros tolerated; all chunk data present; " +
+				"'##' required, bytes after it ignored; zero chunks tolerated (`##` alone decodes to the empty result, not failed)",
 			"'carries an rpc-error' = the payload contains <rpc-error>, <rpc-errors> or <nc:rpc-error>",
 			"decoder-level legal/mutation batches are a pure function of the (seed, n) in the descriptor; failing inputs are written out in full in the replay file",
 		},
